@@ -129,15 +129,18 @@ def check_template(sid, ti, quick):
         # fall back to what the formulas offer for the job's metric
         obj_cols = [c for c in ("Total<SEP>energy", "Total<SEP>latency") if c in formulas or c == "Total<SEP>energy"]
     n_all = n_valid = 0
-    vecs = []
+    vecs, vecs_not_full = [], []
     for a in T.assignments(j2, bounds):
         n_all += 1
         fv = ev(a)
-        if any(v > 1 + 1e-9 for k, v in fv.items() if k.startswith("usage<SEP>")):
+        us = [v for k, v in fv.items() if k.startswith("usage<SEP>")]
+        if any(v > 1 + 1e-9 for v in us):
             continue
         n_valid += 1
         fv["Total<SEP>energy"] = fv.get("Total<SEP>dynamic_energy", 0.0) + fv.get("Total<SEP>leak_energy", 0.0)
         vecs.append(tuple(sig(fv[c]) for c in obj_cols))
+        if not any(abs(v - 1) <= 1e-9 for v in us):  # no memory filled to exactly 100 %
+            vecs_not_full.append(vecs[-1])
     exh = sorted(set(front(vecs)))
     impl_vecs = [tuple(sig(float(r[c])) for c in obj_cols) for r in rows]
     impl = sorted(set(front(impl_vecs)))
@@ -149,8 +152,13 @@ def check_template(sid, ti, quick):
         extra = [v for v in impl if v not in exh]
         fam = "pruning-loses-pareto-point" if lost else "pruning-keeps-point-outside-front"
         tstr = job.mapping.compact_str()
+        if lost and impl == sorted(set(front(vecs_not_full))):
+            # the implementation's front is exactly the front of the assignments that leave every memory
+            # below 100 %: only assignments that fill a memory to exactly its capacity were lost
+            fam = "pruning-loses-exactly-full-assignment"
         viol = {"observed": {"impl_front": impl[:8], "extra": extra[:4]}, "expected": {"front": exh[:8], "lost": lost[:4]},
-                "family": f"{fam}/{sid}/template-{_short(tstr)}", "columns": obj_cols, "template": tstr,
+                "family": (f"{fam}/{sid}" if fam.endswith("exactly-full-assignment") else
+                           f"{fam}/{sid}/template-{_short(tstr)}"), "columns": obj_cols, "template": tstr,
                 # a finding is identified by the exact (spec, template): another template of the
                 # same spec, or another spec, is a different violation
                 "key": f"C08|{sid}|{tstr}"}
